@@ -1642,6 +1642,16 @@ func (p *parser) parseFuncTypeOrLit() ast.Expr {
 }
 
 func (p *parser) stringLit(pos token.Pos, val string) *ast.StringLitEx {
+	if val[0] == '`' {
+		// The scanner strips carriage returns from raw string literals. Split the source
+		// text of the literal instead, so that the positions of its ${...} parts are exact.
+		src := string(p.scanner.CodeTo(p.file.Size())[p.file.Offset(pos):])
+		end := strings.IndexByte(src[1:], '`')
+		if end < 0 { // not terminated: the scanner has reported it
+			return nil
+		}
+		val = src[:end+2]
+	}
 	parts := p.stringLitEx(nil, pos+1, val[1:len(val)-1])
 	if parts != nil {
 		return &ast.StringLitEx{Parts: parts}
